@@ -6,6 +6,27 @@ import gen_prog, lower_common, inject, par
 OL = None
 
 
+SK_PRELUDE = """_n = [0]
+def m(i):
+    _n[0] += 1
+    print('m', i)
+    return [None, 0, 1, 'v'][(i + _n[0]) % 4]
+def c(i):
+    _n[0] += 1
+    v = (i * 7 + _n[0] * 3) % 5 < 3 and _n[0] < 60
+    print('c', i, v)
+    return v
+def r(i):
+    print('r', i)
+    return ('rv', i)
+def it(i):
+    _n[0] += 1
+    print('it', i)
+    return range((i + _n[0]) % 4)
+RESULT = []
+"""
+
+
 def work(item):
     name, src, cfgs = item
     out = []
@@ -81,6 +102,21 @@ def main(argv):
             if (l0, e0) != (l1, e1):
                 failing.append(("probe@" + pl, src, cfg, f"fail:effects differ (in-place operators {inplace}): original {l0} converted {l1} {e1 or ''}", conv))
                 break
+    # control-flow skeletons (C05's targeted families and random ones) as ordinary programs: deterministic probes that print
+    import gen_skel
+    sk = []
+    for pl in ("module", "function", "class", "method"):
+        fam = gen_skel.families(pl in ("function", "method"))
+        sk += [(pl, b_) for b_ in (fam if ck.tier == "thorough" else ck.rng.sample(fam, 14))]
+        sk += [(pl, gen_skel.random_skeleton(ck.rng, ck.rng.randrange(4, 10), 4, pl in ("function", "method"))) for _ in range(12 if ck.tier == "quick" else 300)]
+    for i, (pl, blk) in enumerate(sk):
+        src = SK_PRELUDE + gen_skel.source(blk, pl) + "print(RESULT)\n"
+        cfg = gen_prog.CONFIGS[(i + ck.seed) % 8]
+        v, text = gen_prog.behaviour_check(ol, src, cfg)
+        ck.case(f"skeleton|{cfg}|{src}", nontrivial=not v.startswith("skip"))
+        ck.count("skeleton:" + v.split(":")[0])
+        if v.startswith("fail"):
+            failing.append(("control-skeleton@" + pl, src, cfg, v, text))
     # straight-line module programs inside the fragment of C01.module_straightline_semantics (M-EVAL): the theorem's
     # hypothesis (simpleModuleB, proved sound) is evaluated by the model on each; behaviour is compared as for every program
     import straight, leandrv
